@@ -5,11 +5,7 @@ import json, os, sys, importlib
 sys.path.insert(0, os.path.dirname(os.path.dirname(os.path.abspath(__file__))))
 V = os.path.dirname(os.path.dirname(os.path.abspath(__file__)))
 ALL = ["C%02d" % i for i in range(1, 20)]
-NA = {
- "C09": "No use-after-free and no deadlock for all interleavings of >=3 threads on a note tree that is being reshaped is a whole-history "
-        "protocol invariant over the 'disconnecting' hand-shake plus a liveness argument for WAIT_FOR_NO_CHILDREN; no per-call contract "
-        "expresses it (DESIGN.md section 6, C09). Its sequential adoption clause is checked under C08.",
-}
+NA = {}
 checks = []
 na = []
 for pid in ALL:
